@@ -186,7 +186,7 @@ class C10(core.Prop):
     lean_modules = ['TddaVerif.Props.C10']
     theorems = ['TddaVerif.Props.C10.' + t for t in ['shouldRegenerate_history', 'write_only_named', 'regen_from_cmdline',
         'normal_mode_readonly_string', 'normal_mode_readonly_textfile', 'normal_mode_readonly_binary', 'splitlines_universal',
-        'universal_idem', 'regenerate_then_pass_string', 'regenerate_then_pass_textfile', 'regenerate_then_pass_binary']]
+        'universal_idem', 'regenerate_then_pass_string', 'regenerate_then_pass_textfile', 'regenerate_then_pass_binary', 'ref_table_spec', 'ref_table_unnamed']]
     quick_n = 750
     thorough_n = 6000
     rule = ('cases: histories of 1..10 operations on one ReferenceTest subclass: set_regeneration(kind in '
@@ -235,9 +235,34 @@ class C10(core.Prop):
     def _pre(self, case):
         return {k: {e: bytes(v) for e, v in d.items()} for k, d in case['pre'].items()}
 
+    PYTEST_KINDS = ['table', 'graph', 'csv', 'a', 'b', 'other']
+
+    def _pytest_ref(self, case):
+        """the regeneration decisions after referencepytest.ref(request) on an empty table"""
+        from tdda.referencetest import referencepytest
+
+        class _Cfg:
+            def getoption(self_, name, default=None):
+                return {'--write-all': case['write_all'], '--write': case['write'], '--wquiet': case['wquiet']}.get(name, default)
+
+        class _Req:
+            config = _Cfg()
+        saved = dict(ReferenceTest.regenerate)
+        saved_verbose = ReferenceTest.verbose
+        ReferenceTest.regenerate.clear()
+        try:
+            r = referencepytest.ref(_Req())
+            return {'regen': [bool(r._should_regenerate(k)) for k in self.PYTEST_KINDS], 'unnamed': bool(r._should_regenerate(None))}
+        except Exception as e:   # noqa
+            return {'exc': type(e).__name__}
+        finally:
+            ReferenceTest.regenerate.clear()
+            ReferenceTest.regenerate.update(saved)
+            ReferenceTest.verbose = saved_verbose
+
     def model_ops(self, case):
         if case['kind'] == 'pytest_opts':
-            return []
+            return [{'op': 'c10.pytest_ref', 'write_all': case['write_all'], 'write': case['write'], 'kinds': self.PYTEST_KINDS}]
         if case['kind'] == 'cmdline':
             return [{'op': 'c19.parse_argv', 'argv': case['argv']}]
         ops = []
@@ -249,6 +274,8 @@ class C10(core.Prop):
         return [{'op': 'c10.regen_history', 'ops': ops}]
 
     def impl_outputs(self, case):
+        if case['kind'] == 'pytest_opts':
+            return [self._pytest_ref(case)]
         if case['kind'] == 'cmdline':
             return [c19.run_set_flags(case['argv'])]
         # the decision the real object takes before each assertion
